@@ -2,6 +2,7 @@ package main
 
 import (
 	"fmt"
+	"go/types"
 	"strings"
 
 	"golang.org/x/tools/go/ssa"
@@ -253,6 +254,7 @@ func runC15(c *Ctx) {
 	sums := p.nilFieldSummaries(cl)
 	c.count("nil-after-error field summaries", len(sums))
 	c.checkFieldAfterError("O-6c field left nil by a failing method is not used before the error test", cl, sums)
+	c.checkEventErrors("O-6d events carry the error their String() dereferences")
 	if len(sums) == 0 {
 		c.undecided("O-6c field left nil by a failing method is not used before the error test", "summaries", "-", "no (field, method) summary found; expected WebRTCPeer.pc set by preparePeerConnection")
 	}
@@ -433,5 +435,76 @@ func (c *Ctx) checkClientShutdown(le *LockEngine) {
 			}
 		}
 		c.check(ok, rule, "checkForStaleness selects on the peer's closed channel and returns", p.Pos(st.Pos()), "", "the staleness goroutine does not stop when the peer is closed")
+	}
+}
+
+// checkEventErrors: an event type of package event whose String() calls
+// Error() on a field without a nil test must be constructed with a value that
+// is non-nil at the construction site (a fresh error, a value behind its != nil
+// edge, or the argument of an error callback): the client's PT event logger
+// calls String() in the collecting goroutine, so a nil error there ends the
+// process.
+func (c *Ctx) checkEventErrors(rule string) {
+	p := c.P
+	// (type, field) pairs dereferenced unguarded in String()
+	type tf struct {
+		typ   string
+		field *types.Var
+	}
+	var need []tf
+	for _, fn := range p.FnsIn("common/event") {
+		if fn.Name() != "String" || fn.Signature.Recv() == nil {
+			continue
+		}
+		for _, ci := range callsIn(fn) {
+			if !ci.Common().IsInvoke() || ci.Common().Method.Name() != "Error" {
+				continue
+			}
+			_, f, ok := fieldLoad(ci.Common().Value)
+			if !ok {
+				continue
+			}
+			v := ci.Common().Value
+			nonNil := nilCheckEdges(fn, false, func(w ssa.Value) bool { _, g, okg := fieldLoad(w); return okg && g == f })
+			if len(nonNil) > 0 && reachableWithout(fn, ci, nonNil) == nil {
+				continue // guarded
+			}
+			_ = v
+			if n := namedOf(fn.Signature.Recv().Type()); n != nil {
+				need = append(need, tf{n.Obj().Name(), f})
+			}
+		}
+	}
+	if len(need) == 0 {
+		c.undecided(rule, "event types with an unguarded Error() in String()", "-", "none found (EventOnSnowflakeConnectionFailed expected)")
+		return
+	}
+	for _, nd := range need {
+		n := 0
+		for _, st := range storesToField(p.FnsIn(), nd.field) {
+			if p.Rel(st.Parent()) == "common/event" {
+				continue
+			}
+			n++
+			fn := st.Parent()
+			v := st.Val
+			good := definitelyNonNil(strip(v))
+			why := "fresh error"
+			if !good {
+				if par, ok := strip(v).(*ssa.Parameter); ok && par.Parent().Parent() != nil {
+					good, why = true, "argument of an error callback"
+				}
+			}
+			if !good {
+				nn := nilCheckEdges(fn, false, func(w ssa.Value) bool { return sameValue(w, func(x ssa.Value) bool { return x == strip(v) }) || w == v })
+				if len(nn) > 0 && reachableWithout(fn, st, nn) == nil {
+					good, why = true, "behind its != nil edge"
+				}
+			}
+			c.check(good, rule, p.FnName(fn)+" builds event."+nd.typ+" with a non-nil "+nd.field.Name(), p.instrPos(st), why, "the event's "+nd.field.Name()+" may be nil here (a stale error variable): event."+nd.typ+".String() calls Error() on it without a test, and the PT event logger calls String() in the collecting goroutine - the client process panics on a failed attempt")
+		}
+		if n == 0 {
+			c.undecided(rule, "constructions of event."+nd.typ, "-", "none found")
+		}
 	}
 }
